@@ -1,9 +1,10 @@
 /-
-  C20, memory bit manipulation — the 28 forms of C04M on `@ERd` and `@aa:8` are charged two fetch cycles at the
+  C20, memory bit manipulation — the 28 forms of C04M and the 8 bit-number-in-register forms of C04N on `@ERd` and `@aa:8` are charged two fetch cycles at the
   instruction's own address plus their byte data cycles (two for the read-modify-write forms BSET / BCLR / BNOT / BST /
   BIST, one for BTST / BLD … BIXOR) AT THE OPERAND'S ADDRESS, with the bus settings of the state the instruction leaves.
 -/
 import H8.Props.C04M
+import H8.Props.C04N
 import H8.Props.C20X
 set_option linter.unusedSimpArgs false
 set_option linter.unusedVariables false
@@ -228,5 +229,97 @@ theorem cost_BIXOR_AA8 (op op2 : BitVec 16) (st st' : Cpu) (c : BitVec 8)
   refine ⟨?_, rfl⟩
   bitr_abs_pre Spec.pat_BIXOR_AA8
   cost2_keep
+
+/-! ### bit number in a register (`C04N`): BSET / BNOT / BCLR / BTST Rn,@ERd and Rn,@aa:8 -/
+
+set_option hygiene false in
+local macro "bitw_rn_cost" pl:ident : tactic => `(tactic|
+  (refine ⟨?_, rfl⟩
+   rw [$pl:ident] at hp; simp only [Bool.and_eq_true, beq_iff_eq] at hp
+   first
+     | (have h3 : (nib op 3).ule 7#8 = true := by (simp only [nib]; bv_decide))
+     | (have h3 : (7 : BitVec 8).ule 7#8 = true := by decide)
+   first
+     | (have htag : (op2 &&& 0xff0f == 0x7000) = false ∧ (op2 &&& 0xff0f == 0x6000) = true := by constructor <;> bv_decide)
+     | (have htag : (op2 &&& 0xff0f == 0x7100) = false ∧ (op2 &&& 0xff0f == 0x6100) = true := by constructor <;> bv_decide)
+     | (have htag : (op2 &&& 0xff0f == 0x7200) = false ∧ (op2 &&& 0xff0f == 0x6200) = true := by constructor <;> bv_decide)
+   simp only [bmodErn, bmodAbs, getAddrErn, htag.1, htag.2, Bool.false_eq_true, if_false, if_true, bind_ok, pure_ok, get_ok,
+     readRnL_ok _ _ h3, readRnB_nib] at h
+   split at h
+   case h_2 => simp at h
+   case h_3 => simp at h
+   rename_i vb sb hbb
+   obtain ⟨e1, e2, _⟩ := busRead_peek _ _ _ _ hbb
+   subst e1
+   split at h
+   case h_2 => simp at h
+   case h_3 => simp at h
+   rename_i u s1 hrw
+   have ew := busWrite_poke _ _ _ _ hrw hsfr
+   subst ew
+   cost2_keep))
+
+set_option hygiene false in
+local macro "btst_rn_cost" pl:ident : tactic => `(tactic|
+  (refine ⟨?_, rfl⟩
+   rw [$pl:ident] at hp; simp only [Bool.and_eq_true, beq_iff_eq] at hp
+   first
+     | (have h3 : (nib op 3).ule 7#8 = true := by (simp only [nib]; bv_decide))
+     | (have h3 : (7 : BitVec 8).ule 7#8 = true := by decide)
+   simp only [btstErn, btstAbs, btstSet, getAddrErn, if_true, bind_ok, pure_ok, get_ok, readRnL_ok _ _ h3, readRnB_nib,
+     changeCcr_ok] at h
+   split at h
+   case h_2 => simp at h
+   case h_3 => simp at h
+   rename_i vb sb hbb
+   obtain ⟨e1, e2, _⟩ := busRead_peek _ _ _ _ hbb
+   subst e1
+   cost2_keep))
+
+theorem cost_BSET_RN_IND (op op2 : BitVec 16) (st st' : Cpu) (c : BitVec 8)
+    (hp : Spec.Form.pat .BSET_RN_IND op op2 0 0 0 = true) (h : bmodErn .set 0x7000 0x6000 op op2 st = .ok c st')
+    (hsfr : Spec.isSfr (getEr st.regs (nib op 3) &&& ADDRESS_MASK).toNat = false) :
+    ChargedAt 2 .L 2 (getEr st.regs (nib op 3) &&& ADDRESS_MASK) 0 st' c ∧ Spec.Form.mix .BSET_RN_IND = { i := 2, l := 2 } := by
+  bitw_rn_cost Spec.pat_BSET_RN_IND
+
+theorem cost_BNOT_RN_IND (op op2 : BitVec 16) (st st' : Cpu) (c : BitVec 8)
+    (hp : Spec.Form.pat .BNOT_RN_IND op op2 0 0 0 = true) (h : bmodErn .not_ 0x7100 0x6100 op op2 st = .ok c st')
+    (hsfr : Spec.isSfr (getEr st.regs (nib op 3) &&& ADDRESS_MASK).toNat = false) :
+    ChargedAt 2 .L 2 (getEr st.regs (nib op 3) &&& ADDRESS_MASK) 0 st' c ∧ Spec.Form.mix .BNOT_RN_IND = { i := 2, l := 2 } := by
+  bitw_rn_cost Spec.pat_BNOT_RN_IND
+
+theorem cost_BCLR_RN_IND (op op2 : BitVec 16) (st st' : Cpu) (c : BitVec 8)
+    (hp : Spec.Form.pat .BCLR_RN_IND op op2 0 0 0 = true) (h : bmodErn .clr 0x7200 0x6200 op op2 st = .ok c st')
+    (hsfr : Spec.isSfr (getEr st.regs (nib op 3) &&& ADDRESS_MASK).toNat = false) :
+    ChargedAt 2 .L 2 (getEr st.regs (nib op 3) &&& ADDRESS_MASK) 0 st' c ∧ Spec.Form.mix .BCLR_RN_IND = { i := 2, l := 2 } := by
+  bitw_rn_cost Spec.pat_BCLR_RN_IND
+
+theorem cost_BSET_RN_AA8 (op op2 : BitVec 16) (st st' : Cpu) (c : BitVec 8)
+    (hp : Spec.Form.pat .BSET_RN_AA8 op op2 0 0 0 = true) (h : bmodAbs .set 0x7000 0x6000 op op2 st = .ok c st')
+    (hsfr : Spec.isSfr (getAddrAbs8 (op.setWidth 8)).toNat = false) :
+    ChargedAt 2 .L 2 (getAddrAbs8 (op.setWidth 8)) 0 st' c ∧ Spec.Form.mix .BSET_RN_AA8 = { i := 2, l := 2 } := by
+  bitw_rn_cost Spec.pat_BSET_RN_AA8
+
+theorem cost_BNOT_RN_AA8 (op op2 : BitVec 16) (st st' : Cpu) (c : BitVec 8)
+    (hp : Spec.Form.pat .BNOT_RN_AA8 op op2 0 0 0 = true) (h : bmodAbs .not_ 0x7100 0x6100 op op2 st = .ok c st')
+    (hsfr : Spec.isSfr (getAddrAbs8 (op.setWidth 8)).toNat = false) :
+    ChargedAt 2 .L 2 (getAddrAbs8 (op.setWidth 8)) 0 st' c ∧ Spec.Form.mix .BNOT_RN_AA8 = { i := 2, l := 2 } := by
+  bitw_rn_cost Spec.pat_BNOT_RN_AA8
+
+theorem cost_BCLR_RN_AA8 (op op2 : BitVec 16) (st st' : Cpu) (c : BitVec 8)
+    (hp : Spec.Form.pat .BCLR_RN_AA8 op op2 0 0 0 = true) (h : bmodAbs .clr 0x7200 0x6200 op op2 st = .ok c st')
+    (hsfr : Spec.isSfr (getAddrAbs8 (op.setWidth 8)).toNat = false) :
+    ChargedAt 2 .L 2 (getAddrAbs8 (op.setWidth 8)) 0 st' c ∧ Spec.Form.mix .BCLR_RN_AA8 = { i := 2, l := 2 } := by
+  bitw_rn_cost Spec.pat_BCLR_RN_AA8
+
+theorem cost_BTST_RN_IND (op op2 : BitVec 16) (st st' : Cpu) (c : BitVec 8)
+    (hp : Spec.Form.pat .BTST_RN_IND op op2 0 0 0 = true) (h : btstErn true op op2 st = .ok c st') :
+    ChargedAt 2 .L 1 (getEr st.regs (nib op 3) &&& ADDRESS_MASK) 0 st' c ∧ Spec.Form.mix .BTST_RN_IND = { i := 2, l := 1 } := by
+  btst_rn_cost Spec.pat_BTST_RN_IND
+
+theorem cost_BTST_RN_AA8 (op op2 : BitVec 16) (st st' : Cpu) (c : BitVec 8)
+    (hp : Spec.Form.pat .BTST_RN_AA8 op op2 0 0 0 = true) (h : btstAbs true op op2 st = .ok c st') :
+    ChargedAt 2 .L 1 (getAddrAbs8 (op.setWidth 8)) 0 st' c ∧ Spec.Form.mix .BTST_RN_AA8 = { i := 2, l := 1 } := by
+  btst_rn_cost Spec.pat_BTST_RN_AA8
 
 end H8.Props.C20Y
